@@ -288,6 +288,14 @@ CheckReturn(P, T, sm, s, ln) ==
                    : n \in {P.ids[i] : i \in 1..Len(P.ids)}}
        ELSE {})
       \cup
+      (* chart.run raised the exception of a badly behaved event manager (not of the recording one): the recording
+         manager, which never raises, has still seen the start and exactly one completion of the run *)
+      (IF kind = "raised" /\ T.faulty /\ v[1] = "exc"
+       THEN (IF Len(s.log) > 0 /\ IsEV(s.log[1]) /\ s.log[1][2] = "pipeline_start"
+                /\ (npc = 1 \/ (npc = 0 /\ Len(s.log) = 1))      \* (nothing ran when a manager failed in on_pipeline_start)
+             THEN {} ELSE {"C14.complete"})
+       ELSE {})
+      \cup
       (* lifecycle: exactly one pipeline_complete, last, carrying the returned result *)
       (IF kind \in {"value", "error"}
        THEN (IF npc = 1 /\ lastev > 0 /\ s.log[lastev][2] = "pipeline_complete"
